@@ -25,7 +25,7 @@ Places == {"same", "other_scope", "outside", "other_task"}
 STREAM == 50          \* id standing for the stream's own scope / task group
 NOCTX == 93  DEFAULT == 91
 
-VARIABLES place, n, ending, nested, slow, kind, gsp,   \* scenario, chosen in Init (slow = k > 0: the generator suspends before
+VARIABLES place, n, ending, nested, slow, kind, gsp, hc,   \* scenario (hc: the generator catches a cancellation that reaches it while suspended and yields the item anyway), chosen in Init (slow = k > 0: the generator suspends before
                                                        \* item k - 1; gsp: it spawns a task through the context before its first item)
           pos,        \* items produced so far
           sst,        \* "fresh" | "open" | "pulling" | "draining" | "ended" | "closed" | "cancelled"
@@ -34,8 +34,8 @@ VARIABLES place, n, ending, nested, slow, kind, gsp,   \* scenario, chosen in In
           sp,         \* the task the generator spawned: "none" | "run" | "done" | "cancelled"
           nops, obs
 
-vars == <<place, n, ending, nested, slow, kind, gsp, pos, sst, s1done, called, sp, nops, obs>>
-scen == <<place, n, ending, nested, slow, kind, gsp>>
+vars == <<place, n, ending, nested, slow, kind, gsp, hc, pos, sst, s1done, called, sp, nops, obs>>
+scen == <<place, n, ending, nested, slow, kind, gsp, hc>>
 
 (* what the consumer sees of its own context: <<state A, metrics scope, task group>> *)
 BUSY == 77
@@ -52,6 +52,7 @@ Init == /\ place \in Places /\ n \in 0..MaxItems /\ ending \in {"normal", "error
         /\ kind \in {"agen", "factory", "raising"}
         /\ (kind = "raising" => n = 0 /\ ~nested /\ slow = 0 /\ ending = "normal")
         /\ gsp \in BOOLEAN /\ (gsp => n >= 1 /\ kind = "agen")
+        /\ hc \in BOOLEAN /\ (hc => slow > 0)
         /\ pos = 0 /\ sst = "fresh" /\ s1done = FALSE /\ called = FALSE /\ sp = "none" /\ nops = 0
         /\ obs = [res |-> <<"none", 0, 0, 0, 0>>, cons |-> Own, s1 |-> FALSE, call |-> <<0, 0, 0>>, sp |-> "none"]
 
@@ -119,10 +120,15 @@ EndSpawned ==
    task): the cancellation goes through the generator body (which does not handle it), the stream's scope is left - its
    spawned task cancelled - and completes, the task sees the cancellation and its own context again; the stream is finished *)
 CancelPull ==
-  /\ sst \in {"pulling", "draining"} /\ nops' = nops + 1 /\ UNCHANGED <<scen, pos>>
-  /\ sst' = "cancelled" /\ s1done' = IF Bug = "cancel_leaks_scope" THEN s1done ELSE Completes
-  /\ called' = called /\ sp' = Aborted(sp)
-  /\ obs' = O(None5("cancelled"), FALSE, s1done', called, sp')
+  /\ sst \in {"pulling", "draining"} /\ nops' = nops + 1 /\ UNCHANGED scen /\ called' = called
+  /\ IF sst = "pulling" /\ hc
+       THEN \* the generator body catches the cancellation and answers with the item: the pending pull gets it, the
+            \* stream goes on
+            /\ pos' = pos + 1 /\ sst' = "open" /\ UNCHANGED <<s1done, sp>>
+            /\ obs' = O(ItemOf(pos), FALSE, s1done, called, sp)
+       ELSE /\ pos' = pos /\ sst' = "cancelled" /\ s1done' = IF Bug = "cancel_leaks_scope" THEN s1done ELSE Completes
+            /\ sp' = Aborted(sp)
+            /\ obs' = O(None5("cancelled"), FALSE, s1done', called, sp')
 
 (* aclose(): ends a stream that was not exhausted; closing a stream that already ended - exhausted, failed, cancelled,
    closed before - is allowed (contextlib.aclosing always does it) and changes nothing *)
